@@ -19,13 +19,18 @@ Part S  bounded-exhaustive enumeration of splitDatabase: every set of <= 3 (thor
         times x every non-empty keep-subset; the cycle shift must be applied consistently to the
         group name, the ``Reactor/cycle`` dataset and the group's ``cycle`` attribute (which the
         history queries use as key), everything else byte-equal.
+Part R  restart merges: after a complete run, for every later (startCycle, startNode) the real
+        ``DatabaseInterface.prepRestartRun`` must copy exactly the earlier steps, byte-equal, and
+        attach the reactor in the state of the step before the start point.
+Part C  ``with Database(...)`` left normally / through an exception, plain and re-entered: file in the
+        working directory, flag, snapshots.
 Part B  single-fault enumeration on a real bare ``Operator`` with the real ``DatabaseInterface``
         between two recording interfaces, run inside ``with operator:``.  The interaction points of a
         fault-free run are recorded (and compared with an independent for-loop schedule), then one
         run per point with a RuntimeError raised by the recorder exactly there.  Oracle from the .h5
         file left in the working directory.
 
-A *case* (pure JSON) is ``{"part": "A"|"S"|"B", ...}``; ``evaluate(case)`` rebuilds everything.
+A *case* (pure JSON) is ``{"part": "A"|"S"|"B"|"R"|"C", ...}``; ``evaluate(case)`` rebuilds everything.
 """
 import hashlib
 import itertools
@@ -62,9 +67,9 @@ BOUNDS = {
     },
     "thorough": {
         "searches": [
-            ("full", 4, [("full3", 0)], [None, "EOL", "x"], MUTS_Q),
-            ("por", 5, [("full3", 0), ("full3", 3), ("full7", 5)], [None, "EOL", "x"], PRIMS),
-            ("por", 6, [("full3", 2)], [None, "EOL"], MUTS_Q),
+            ("full", 4, [("full3", 0)], [None, "EOL", "x"], MUTS_Q),  # all orders: validates the reduction
+            ("por", 5, [("full3", 0), ("full7", 5)], [None, "EOL"], MUTS_Q),
+            ("por", 4, [("full3", 3)], [None, "EOL", "x"], PRIMS),
         ],
         "split_max": 4,
         "fault_cycles": (1, 2, 3),
@@ -272,6 +277,7 @@ def apply(st, op):
             l0, l1 = st.A0.spatialLocator, st.A1.spatialLocator
             st.A0.moveTo(l1)
             st.A1.moveTo(l0)
+            st.r.core.sort()  # child order follows position: the layout order of the next write differs
         elif m == "none":
             st.b1.p.power = None
         else:
@@ -535,13 +541,13 @@ def check_split(st, keep, tag, report_shift_attr=True, load_one=True, light=Fals
             for new, old in pairs:
                 g = sd.h5db[gname(new + ("",))]
                 m = st.model[old + ("",)]
-                if not light and gdigest(g, shift=-minc, group_attrs=False) != gdigest_shifted_ref(st, old, m):
-                    out.append(("split-changed", "%s: data of step %s (stored as %s) differ from the snapshot written beyond the cycle renumbering" % (what, old, gname(new + ("",)))))
-                    break
                 rc = int(np.asarray(g["Reactor/cycle"][()]).ravel()[0])
                 rn = int(np.asarray(g["Reactor/timeNode"][()]).ravel()[0])
                 if (rc, rn) != new:
                     out.append(("split-reactor-cycle", "%s: group %s holds Reactor/cycle,timeNode = %s" % (what, gname(new + ("",)), (rc, rn))))
+                    break
+                if not light and gdigest(g, shift=-minc, group_attrs=False) != gdigest_shifted_ref(st, old, m):
+                    out.append(("split-changed", "%s: data of step %s (stored as %s) differ from the snapshot written beyond the cycle renumbering" % (what, old, gname(new + ("",)))))
                     break
                 ga = (int(g.attrs["cycle"]), int(g.attrs["timeNode"]))
                 if ga != new and report_shift_attr:
@@ -757,6 +763,7 @@ def split_item(item):
         keeps = item.get("keeps")
         if keeps is None:
             keeps = [list(map(list, c)) for r in range(1, len(stored) + 1) for c in itertools.combinations(stored, r)]
+            keeps = [k[::-1] if i % 2 else k for i, k in enumerate(keeps)]  # "a collection": any order
         seen = set()
         for i, keep in enumerate(keeps):
             res["n"] += 1
@@ -779,6 +786,76 @@ def split_items(ctx, nmax):
         for comb in itertools.combinations(range(len(TIMES)), r):
             out.append({"times": list(comb), "eol": (len(out) % 3 == 2), "seed": ctx.seed, "keeps": None})
     return out
+
+
+# =============================================================================================
+# Part C - Database used as a context manager (the low-level form of "survives an abort")
+# =============================================================================================
+
+
+def ctxmgr_item(case):
+    """case = {"nested": bool, "fail": None|"inner"|"outer", "nwrites": n}: write n snapshots inside
+    ``with Database(...)`` (optionally re-entered), leave normally or through a RuntimeError; the
+    file must then be in the working directory, closed, flagged accordingly, and hold n snapshots."""
+    import h5py
+
+    init = {"spec": "full3", "t0": 0, "seed": case.get("seed", 0), "alpha": "por", "labels": [None], "muts": MUTS_Q}
+    st = St(init)
+    vl = []
+    try:
+        from armi.bookkeeping.db import Database
+
+        db = Database("c.h5", "w")
+        st.dbs.append(db)
+        raised = False
+        try:
+            with db:
+                db.writeInputsToDB(st.cs, bpString=st.bptext)
+                st.db = db
+                for _ in range(case["nwrites"]):
+                    apply(st, ["mut", "blk"])
+                    apply(st, ["write", None])
+                    apply(st, ["time"])
+                if case["nested"]:
+                    with db:
+                        if case["fail"] == "inner":
+                            raise RuntimeError("abort inner")
+                    if not db.isOpen():
+                        vl.append(("ctx-inner-exit-closes", "leaving a nested `with db:` normally closed the database"))
+                if case["fail"] == "outer":
+                    raise RuntimeError("abort outer")
+        except RuntimeError as e:
+            raised = True
+            if not str(e).startswith("abort"):
+                raise
+        what = "with Database (nested=%s, %d writes, %s)" % (case["nested"], case["nwrites"], "left through an exception in the %s block" % case["fail"] if case["fail"] else "left normally")
+        if raised != bool(case["fail"]):
+            vl.append(("ctx-exception-swallowed", "%s: exception propagated = %s" % (what, raised)))
+        if db.isOpen():
+            vl.append(("ctx-still-open", "%s: the database is still open" % what))
+        path = os.path.join(st.dir, "c.h5")
+        if not os.path.exists(path):
+            vl.append(("ctx-no-file-in-workdir", "%s: no c.h5 in the working directory" % what))
+        else:
+            with h5py.File(path, "r") as f:
+                ok = bool(f.attrs["successfulCompletion"])
+                if ok != (not case["fail"]):
+                    vl.append(("ctx-completion-flag", "%s: successfulCompletion = %s" % (what, ok)))
+                names = sorted(n for n in f if n[0] == "c" and n[1:3].isdigit())
+                if names != [gname(k) for k in sorted(st.model)]:
+                    vl.append(("ctx-snapshots", "%s: the file holds %s, written %s" % (what, names, [gname(k) for k in sorted(st.model)])))
+                else:
+                    for k in sorted(st.model):
+                        if gdigest(f[gname(k)]) != st.model[k]["dig"]:
+                            vl.append(("ctx-snapshot-changed", "%s: %s changed on close" % (what, gname(k))))
+                            break
+        return {"viols": [core.viol("c06/" + k, m, dict(case, part="C")) for k, m in vl + st.viols]}
+    finally:
+        st.close()
+
+
+def ctxmgr_items(ctx):
+    return [{"part": "C", "nested": nested, "fail": fail, "nwrites": n, "seed": ctx.seed} for nested in (False, True) for fail in (None, "outer", "inner") for n in (0, 2) if nested or fail != "inner"]
 
 
 # =============================================================================================
@@ -815,6 +892,7 @@ def _rec_classes():
                 l0, l1 = t.A0.spatialLocator, t.A1.spatialLocator
                 t.A0.moveTo(l1)
                 t.A1.moveTo(l0)
+                self.r.core.sort()
             t.projs.append(proj(self.r))
             if t.arm == idx:
                 raise RuntimeError("injected fault at point %d %s" % (idx, t.log[-1]))
@@ -876,6 +954,29 @@ def ref_schedule(nC, bs, tight):
     return pts, writes
 
 
+def _mk_operator(nC, bs, tight, seed, **over):
+    """Blueprint file + settings + reactor + bare Operator in the current directory; resets the trace."""
+    from armi.operators import Operator
+
+    spec = _spec("full3")
+    if not os.path.exists("bp.yaml"):
+        with open("bp.yaml", "w") as f:
+            f.write(build.render(build.normalize(spec)))
+    cs = build.settings(nCycles=nC, burnSteps=bs, tightCoupling=tight, loadingFile="bp.yaml", cycleLength=10.0, **over)
+    r = build.reactor(spec, cs, seed=seed)
+    t = _Trace
+    t.log, t.projs, t.arm = [], [], None
+    assems = sorted(r.core, key=lambda a: a.p.serialNum)
+    t.A0, t.A1 = assems[0], assems[1]
+    t.b0 = t.A0[0]
+    for i, b in enumerate(r.core.getBlocks()):
+        b.p.mgFlux = np.array([1.0, 2.0, 3.0 + i])
+    o = Operator(cs)
+    o.r = r
+    r.o = o
+    return o, r, cs
+
+
 def run_fault(case):
     """One real operator run, fault armed at point ``case['arm']`` (None: fault-free)."""
     from armi import context
@@ -896,21 +997,9 @@ def run_fault(case):
     dbi = None
     res = {"viols": [], "points": None, "window": "in", "sig": None, "nsnap": 0}
     try:
-        spec = _spec("full3")
-        with open("bp.yaml", "w") as f:
-            f.write(build.render(build.normalize(spec)))
-        cs = build.settings(nCycles=nC, burnSteps=bs, tightCoupling=tight, loadingFile="bp.yaml", cycleLength=10.0)
-        r = build.reactor(spec, cs, seed=int(case.get("seed", 0)))
+        o, r, cs = _mk_operator(nC, bs, tight, int(case.get("seed", 0)))
         t = _Trace
-        t.log, t.projs, t.arm = [], [], arm
-        assems = sorted(r.core, key=lambda a: a.p.serialNum)
-        t.A0, t.A1 = assems[0], assems[1]
-        t.b0 = t.A0[0]
-        for i, b in enumerate(r.core.getBlocks()):
-            b.p.mgFlux = np.array([1.0, 2.0, 3.0 + i])
-        o = Operator(cs)
-        o.r = r
-        r.o = o
+        t.arm = arm
         o.addInterface(RecA(r, cs))
         dbi = DatabaseInterface(r, cs)
         o.addInterface(dbi)
@@ -1007,6 +1096,94 @@ def run_fault(case):
         shutil.rmtree(d, ignore_errors=True)
 
 
+def run_restart(case):
+    """Part R: a complete fault-free run, then for every later (startCycle, startNode) a fresh
+    operator whose DatabaseInterface is initialised and asked to prepare the restart (what the main
+    interface does at BOL): the new database must hold exactly the steps before the start point,
+    byte-equal, and the attached reactor must be in the state of the step just before it."""
+    import h5py
+
+    from armi import context
+    from armi.bookkeeping.db.databaseInterface import DatabaseInterface
+
+    nC, bs, tight = case["nCycles"], case["burnSteps"], bool(case["tight"])
+    only = case.get("start")
+    _reset_masks()
+    RecA, RecB = _rec_classes()
+    d = env.fresh_dir("c06r")
+    os.chdir(d)
+    fastroot = os.path.join(d, "fast")
+    os.makedirs(fastroot)
+    old_app = context.APP_DATA
+    context.APP_DATA = fastroot
+    res = {"viols": [], "n": 0, "copied": 0}
+    open_dbs = []
+    try:
+        o, r, cs = _mk_operator(nC, bs, tight, int(case.get("seed", 0)))
+        o.addInterface(RecA(r, cs))
+        o.addInterface(DatabaseInterface(r, cs))
+        o.addInterface(RecB(r, cs))
+        with o:
+            o.operate()
+        projs = list(_Trace.projs)
+        pts, writes = ref_schedule(nC, bs, tight)
+        os.rename(cs.caseTitle + ".h5", "prev.h5")
+        with h5py.File("prev.h5", "r") as f:
+            src = {n: gdigest(f[n]) for n in f if n[0] == "c" and n[1:3].isdigit()}
+        allkeys = sorted(w[1] for w in writes)
+        if sorted(src) != [gname(k) for k in allkeys]:
+            raise RuntimeError("fault-free run left %s" % sorted(src))
+        starts = [(c, n) for c in range(nC) for n in range(bs + 1) if (c, n) != (0, 0)]
+        for sc, sn in starts:
+            if only is not None and [sc, sn] != list(only):
+                continue
+            res["n"] += 1
+            what = "nCycles=%d burnSteps=%d tightCoupling=%s, restart at (%d,%d)" % (nC, bs, tight, sc, sn)
+            vl = []
+            try:
+                o2, r2, cs2 = _mk_operator(nC, bs, tight, int(case.get("seed", 0)), reloadDBName="prev.h5", startCycle=sc, startNode=sn, loadStyle="fromDB")
+                dbi = DatabaseInterface(r2, cs2)
+                o2.addInterface(dbi)
+                dbi.initDB()
+                open_dbs.append(dbi)
+                dbi.prepRestartRun()
+                exp = [k for k in allkeys if k[:2] < (sc, sn)]
+                got = list(dbi.database.keys())
+                want = ["/" + gname(k) for k in exp]
+                if got != want:
+                    vl.append(("restart-steps", "%s: the new database holds %s, expected exactly the steps before the start point %s" % (what, got, want)))
+                else:
+                    res["copied"] += len(got)
+                    for k in exp:
+                        if gdigest(dbi.database.h5db[gname(k)]) != src[gname(k)]:
+                            vl.append(("restart-changed", "%s: merged step %s is not byte-equal to the one in the reload database" % (what, gname(k))))
+                            break
+                prev = (sc, sn - 1) if sn else (sc - 1, bs)
+                idx = [w[0] for w in writes if w[1] == prev + ("",)][0]
+                dd = observe.diff(projs[idx], proj(o2.r))
+                if dd:
+                    vl.append(("restart-state", "%s: the reactor attached for the restart is not in the state written at %s: %s" % (what, prev, dd[:4])))
+                dbi.database.close(False)
+                open_dbs.remove(dbi)
+                os.remove(cs2.caseTitle + ".h5")
+            except Exception as e:
+                vl.append(("restart-raises:" + type(e).__name__, "%s raised %r" % (what, e)))
+            for key, msg in vl:
+                res["viols"].append(core.viol("c06/" + key, msg, dict(case, part="R", start=[sc, sn])))
+        return res
+    finally:
+        context.APP_DATA = old_app
+        for dbi in open_dbs:
+            try:
+                if dbi._db is not None and dbi._db.isOpen():
+                    dbi._db.h5db.close()
+                    dbi._db.h5db = None
+            except Exception:
+                pass
+        env.enter_scratch()
+        shutil.rmtree(d, ignore_errors=True)
+
+
 def fault_configs(b):
     # burnSteps = 0 is only admitted by the cycle settings for a single cycle
     return [{"part": "B", "nCycles": nC, "burnSteps": bs, "tight": tight} for nC in b["fault_cycles"] for bs in b["fault_burnsteps"] for tight in (False, True) if bs > 0 or nC == 1]
@@ -1016,7 +1193,16 @@ def fault_configs(b):
 
 
 def run(ctx):
-    b = BOUNDS[ctx.tier]
+    b = dict(BOUNDS[ctx.tier])
+    parts = os.environ.get("VERIF_C06_PARTS", "ABS")  # development aid only; default: everything
+    if "B" not in parts:
+        b["fault_cycles"] = ()
+    if "S" not in parts:
+        b["split_max"] = 0
+    if "A" not in parts:
+        b["searches"] = []
+    if parts != "ABS":
+        ctx.notes.append("PARTIAL RUN: VERIF_C06_PARTS=%s" % parts)
     # ---- Part B first (its fault-free runs define the points)
     cfgs = [dict(c, arm=None, seed=ctx.seed) for c in fault_configs(b)]
     free = core.pmap(MOD, "run_fault", cfgs)
@@ -1042,6 +1228,21 @@ def run(ctx):
     for c, r in zip(cfgs, free):
         sigs.add((c["nCycles"], c["burnSteps"], c["tight"], r["sig"]))
     ctx.log("part B: %d configurations, %d fault runs (%d inside the window), %d distinct outcomes" % (len(cfgs), len(cases), inwin, len(sigs)))
+    # ---- Part R: restart merges on the multi-step configurations
+    rcfgs = [dict(c, part="R", seed=ctx.seed) for c in fault_configs(b) if (c["nCycles"] - 1) * (c["burnSteps"] + 1) + c["burnSteps"] >= 2 and not c["tight"]]
+    rres = core.pmap(MOD, "run_restart", rcfgs)
+    for r in rres:
+        ctx.add_violations(r["viols"])
+    nrestart = sum(r["n"] for r in rres)
+    ctx.count("restart/source runs", len(rcfgs))
+    ctx.count("restart/start points", nrestart)
+    ctx.count("restart/steps merged and compared", sum(r["copied"] for r in rres))
+    ctx.log("part R: %d restarts" % nrestart)
+    # ---- Part C
+    citems = ctxmgr_items(ctx) if "S" in parts else []
+    for r in core.pmap(MOD, "ctxmgr_item", citems):
+        ctx.add_violations(r["viols"])
+    ctx.count("ctxmgr/cases", len(citems))
     # ---- Part S
     items = split_items(ctx, b["split_max"])
     sres = core.pmap(MOD, "split_item", ctx.order(items))
@@ -1068,7 +1269,7 @@ def run(ctx):
         ctx,
         total,
         {
-            "evaluations": len(cfgs) + len(cases) + nsplit,
+            "evaluations": len(cfgs) + len(cases) + nsplit + nrestart + len(citems),
             "distinct_nontrivial": len(sigs) + sum(r["shifted"] for r in sres),
             "rule": "fault enumeration: one real operator run per (configuration, interaction point) with the fault raised exactly there, plus the fault-free runs; "
             "non-trivial+distinct = distinct (configuration, set of snapshots left in the file, completion flag) among points inside the window. "
@@ -1078,6 +1279,7 @@ def run(ctx):
             "fault_points_inside_window": inwin,
             "fault_distinct_outcomes": len(sigs),
             "fault_exhaustive": True,
+            "restart_evaluations": nrestart,
             "split_databases": len(items),
             "split_evaluations": nsplit,
         },
@@ -1101,4 +1303,8 @@ def evaluate(case):
         return run_fault(case)["viols"]
     if part == "S":
         return split_item(case)["viols"]
+    if part == "R":
+        return run_restart(case)["viols"]
+    if part == "C":
+        return ctxmgr_item(case)["viols"]
     return _eval_A(case)
